@@ -1,0 +1,46 @@
+//go:build verif
+
+package registry
+
+import (
+	"context"
+
+	"github.com/conduitio/conduit/pkg/registry/trust"
+)
+
+// Add-only hook file for the verification harness in /verif (property C19). Excluded from
+// every build without the "verif" tag.
+
+// VerifMaxExtractedBytes exposes the decompression cap of ExtractBinary.
+func VerifMaxExtractedBytes() int64 { return maxExtractedBytes }
+
+// VerifSetChaosHook installs fn as the crash-injection hook of the install pipeline
+// (the same seam export_test.go gives the package's own chaos tests).
+func VerifSetChaosHook(fn func(point string)) { chaosHook = fn }
+
+// VerifInstallWithValidate is Install for a connector target whose (normally nil) install-time
+// validation hook is validate: the same unexported steps Install runs, in the same order.
+func VerifInstallWithValidate(ctx context.Context, opts InstallOptions,
+	validate func(ctx context.Context, stagedPath, name, version string) error) (*InstallResult, error) {
+	if err := opts.validate(); err != nil {
+		return nil, err
+	}
+	verified, resolved, artifact, err := resolveInstall(ctx, opts)
+	if err != nil {
+		return nil, err
+	}
+	ra := resolvedArtifact{
+		name:    resolved.Connector.Name,
+		version: resolved.Version.Version,
+		identity: trust.PinnedIdentity{
+			OIDCIssuer:      resolved.Connector.Publisher.ExpectedOIDCIssuer,
+			IdentityPattern: resolved.Connector.Publisher.ExpectedIdentityPattern,
+		},
+		artifact:          artifact,
+		versionProvenance: resolved.Version.SLSAProvenance,
+		deprecated:        resolved.Version.Deprecated,
+	}
+	target := connectorTarget()
+	target.validate = validate
+	return installArtifact(ctx, opts, opts.ConnectorsPath, target, verified, ra)
+}
